@@ -32,6 +32,7 @@ InitSt == [hs |-> TRUE,            \* still in the opening handshake
            lastwire |-> "",        \* method name of the last client frame on the wire
            finalwire |-> FALSE,    \* a Connection.Close / CloseOk has been written
            owedck |-> {},          \* channel ids with a client Channel.Close on the wire that the server has not answered yet
+           pubs |-> <<>>,          \* channel id -> body bytes still due for the publish whose frames are on the wire (-1: its header is due)
            cclosed |-> FALSE,      \* the client's own Connection.Close was queued (close point passed)
            pendw |-> FALSE,        \* the next transport write fails
            blkq |-> <<>>,          \* blocked-listener registrations sent, not yet handled
@@ -319,6 +320,18 @@ WireLabel(e, out) ==
       [] M \cap {"basic.publish", "header", "body"} # {} -> "C02:wire-publish"
       [] OTHER -> "C01:wire-order"
 
+\* progress of the publish (if any) whose frames are being written on a channel
+Due(ps, ch) == IF Has(ps, ch) THEN ps[ch] ELSE 0          \* 0: nothing due
+FrameBytes(e) == IF Has(e, "bsz") THEN e.bsz ELSE IF Has(e, "body_size") THEN e.body_size ELSE 0
+PubsAfter(ps, e) ==
+    CASE e.type = "method" /\ e.m = "basic.publish" -> Put(ps, e.ch, -1)
+      [] e.type = "header" /\ Due(ps, e.ch) = -1 -> Put(ps, e.ch, FrameBytes(e))
+      [] e.type = "body" /\ Due(ps, e.ch) > 0 /\ Has(e, "size") ->
+            Put(ps, e.ch, IF e.size >= ps[e.ch] THEN 0 ELSE ps[e.ch] - e.size)
+      [] OTHER -> ps
+ContigOK(e) ==
+    (e.type = "method" /\ e.ch # 0) => Due(st.pubs, e.ch) = 0
+
 TC2s ==
     /\ IsEv("c2s")
     /\ IF st.hs
@@ -336,12 +349,16 @@ TC2s ==
                           <<"C04:nowait-bit", (ok /\ Has(Head(w.out), "nowait") /\ Has(e, "nowait"))
                                                  => e.nowait = Head(w.out).nowait>>,
                           <<"C08:nothing-after", ~st.finalwire>>,
+                          \* a publish's frames (method, header, bodies) are contiguous among the frames of its channel:
+                          \* no other method of that channel may be written while content is still due
+                          <<"C02:contiguous", ContigOK(e)>>,
                           \* every frame is exactly the encoding of a method / header / body (strict reading)
                           <<"C01:env", e.type # "undecodable" /\ ~(Has(e, "strict") /\ ~e.strict)>> >>)
                /\ w' = IF ok THEN Wrote(w) ELSE w
                /\ st' = [IoStep(w, IF ok THEN Wrote(w) ELSE w)
                          EXCEPT !.lastwire = IF e.type = "method" THEN e.m ELSE e.type,
                                    !.owedck = IF e.type = "method" /\ e.m = "channel.close" THEN @ \cup {e.ch} ELSE @,
+                                   !.pubs = PubsAfter(@, e),
                                    !.finalwire = @ \/ (e.type = "method" /\ e.ch = 0 /\
                                                        e.m \in {"connection.close", "connection.close-ok"})]
                /\ UNCHANGED <<ops, seen>>
